@@ -860,7 +860,7 @@ func runC11(e *vlib.Env) {
 	}
 
 	// (4) port sweeps on one router per range kind, both orders
-	sweepKinds := []int{kUDP, kTCP, kEchoRep, kTrRep, kErrUDP, kErrEchoReq, kErrTrReq}
+	sweepKinds := []int{kUDP, kTCP, kEchoRep, kTrRep, kErrUDP, kErrEchoReq, kErrTrReq, kErrUDPCutPayload}
 	for _, rg := range []rng{{0, 0, "-"}, {1, 65535, "all"}, {31000, 32767, ""}, {30041, 30041, ""},
 		{1, 1, ""}, {65535, 65535, ""}, {1024, 65535, ""}, genRange(r), genRange(r)} {
 		for _, kinds := range [][]string{{"P", "I"}, {"I", "P"}, {"P'", "I", "E", "P"}} {
